@@ -38,6 +38,19 @@ func (x *Exec) zoneOff(v Value) *Term {
 	return off
 }
 
+// civil: the facts tying the civil fields of the wall clock w to each other and to its "060102150405" rendering
+// (YYMMDDhhmmss, two decimal digits each, the year modulo 100), once per wall-clock term and state.
+func (x *Exec) civil(st *State, w *Term) {
+	f := func(n string) *Term { return App(n, SInt, w) }
+	rng := func(t *Term, lo, hi int64) *Term {
+		constBounds[t] = boundsOf(lo, hi)
+		return And(Le(IntLit(lo), t), Le(t, IntLit(hi)))
+	}
+	st.Assume(And(rng(f("tyear"), 0, 9999), rng(f("tmonth"), 1, 12), rng(f("tday"), 1, 31), rng(f("thour"), 0, 23), rng(f("tminute"), 0, 59), rng(f("tsecond"), 0, 59)))
+	d2 := func(t *Term) *Term { return App("dec2", SBytes, t) }
+	st.Assume(Eq(App("tfmt12", SBytes, w), CatN(d2(Mod(f("tyear"), IntLit(100))), d2(f("tmonth")), d2(f("tday")), d2(f("thour")), d2(f("tminute")), d2(f("tsecond")))))
+}
+
 func (x *Exec) withLoc(r Value, loc Value) Value {
 	sv := r.(*StructVal)
 	n := &StructVal{Typ: sv.Typ, Fields: append([]Value(nil), sv.Fields...)}
@@ -49,7 +62,7 @@ func (x *Exec) withLoc(r Value, loc Value) Value {
 
 func init() {
 	assumptionText["A-FLOAT"] = "int(d.Hours()), int(d.Hours()/24), int(d.Minutes()), int(d.Seconds()) equal the integer quotients of the nanosecond count for 0 <= d < 4096h (float64 rounding changes the result only above; measured in DESIGN.md section 4 C19); beyond that range nothing is claimed"
-	assumptionText["A-TIMEPKG"] = "time.ParseDuration is a partial function of its argument (parsedur / parseok); Time.Add/Before act on the abstract instant and keep the location, UTC() keeps the instant and sets the location to UTC, Format prints the wall clock of the location (instant + an unknown per-location offset, 0 for UTC; DST not modelled); Format(\"060102150405\") yields 12 characters (tfmt12)"
+	assumptionText["A-TIMEPKG"] = "time.ParseDuration is a partial function of its argument (parsedur / parseok); Time.Add/Before act on the abstract instant and keep the location, UTC() keeps the instant and sets the location to UTC, Format prints the wall clock of the location (instant + an unknown per-location offset, 0 for UTC; DST not modelled); Format(\"060102150405\") yields 12 characters (tfmt12): two decimal digits each of year mod 100, month, day, hour, minute, second, which are what Year/Month/Day/Hour/Minute/Second/Date/Clock return"
 	assumptionText["A-FMT2"] = "fmt.Sprintf(\"0000%02d%02d%02d%02d000R\", a, b, c, e) is \"0000\" dec2(a) dec2(b) dec2(c) dec2(e) \"000R\" with two-character dec2 for 0..99"
 	reg("time.ParseDuration", func(x *Exec, st *State, fr *Frame, in ssa.Instruction, callee *ssa.Function, args []Value) []Value {
 		x.assume("A-TIMEPKG")
@@ -82,13 +95,40 @@ func init() {
 		x.assume("A-TIMEPKG")
 		return one(Lt(x.instOf(args[0]), x.instOf(args[1])))
 	})
+	// civil fields of a time value: functions of its wall clock (instant + zone offset), tied to the 12-digit rendering
+	fields := []struct {
+		name   string
+		lo, hi int64
+	}{{"Year", 0, 9999}, {"Month", 1, 12}, {"Day", 1, 31}, {"Hour", 0, 23}, {"Minute", 0, 59}, {"Second", 0, 59}}
+	field := func(x *Exec, st *State, tv Value, k int) *Term {
+		w := Add(x.instOf(tv), x.zoneOff(tv))
+		x.civil(st, w)
+		return App("t"+strings.ToLower(fields[k].name), SInt, w)
+	}
+	for k, f := range fields {
+		k := k
+		reg("time.(Time)."+f.name, func(x *Exec, st *State, fr *Frame, in ssa.Instruction, callee *ssa.Function, args []Value) []Value {
+			x.assume("A-TIMEPKG")
+			return one(field(x, st, args[0], k))
+		})
+	}
+	reg("time.(Time).Date", func(x *Exec, st *State, fr *Frame, in ssa.Instruction, callee *ssa.Function, args []Value) []Value {
+		x.assume("A-TIMEPKG")
+		return []Value{field(x, st, args[0], 0), field(x, st, args[0], 1), field(x, st, args[0], 2)}
+	})
+	reg("time.(Time).Clock", func(x *Exec, st *State, fr *Frame, in ssa.Instruction, callee *ssa.Function, args []Value) []Value {
+		x.assume("A-TIMEPKG")
+		return []Value{field(x, st, args[0], 3), field(x, st, args[0], 4), field(x, st, args[0], 5)}
+	})
 	old := intrinsics["time.(Time).Format"]
 	reg("time.(Time).Format", func(x *Exec, st *State, fr *Frame, in ssa.Instruction, callee *ssa.Function, args []Value) []Value {
 		if layout := args[1].(*Term); layout == x.strLit(st, "060102150405") {
 			x.assume("A-TIMEPKG")
 			// the wall clock printed is that of the value's location: instant + zone offset
-			r := App("tfmt12", SBytes, Add(x.instOf(args[0]), x.zoneOff(args[0])))
+			w := Add(x.instOf(args[0]), x.zoneOff(args[0]))
+			r := App("tfmt12", SBytes, w)
 			st.Assume(Eq(App("len", SInt, r), IntLit(12)))
+			x.civil(st, w)
 			return one(r)
 		}
 		return old(x, st, fr, in, callee, args)
